@@ -113,7 +113,7 @@ def run(F, R):
     R.rule("C03-R3", "the retained metadata holds get_serialized_body() of the very Intermediate that becomes the wire request, the same key id and nonce as the URI; both serialisations go through Intermediate::serialize_body of an unmodified body")
     # .. and that metadata is what the exchange hands back (to the installer, for re-verification of the stored response):
     # the third member of its Ok tuple is the metadata half of this exchange's build(), on every success path
-    exb_ = [b for b in c.bodies if b["kind"] == "coroutine" and any(t.get("trait") == "cup_ecdsa::Cupv2RequestHandler" and t.get("name") == "verify_response" for _, t in BV.of(b).calls())]
+    exb_ = [b for b in c.bodies if b["kind"] == "coroutine" and lib.calls_verify_response(BV.of(b))]
     if R.floor("C03-R3", "exchange function (caller of verify_response)", len(exb_), 1):
         ev_ = BV.of(exb_[0])
         oks_ = [x for x in walk(ev_.trace_local(0)) if x[0] == "agg" and (x[2] or "").endswith("Result::Ok") and len(x[3]) == 1 and strip(x[3][0])[0] == "agg" and strip(x[3][0])[1] == "tuple"]
@@ -246,7 +246,7 @@ def run(F, R):
         nd = S.nodes[x]
         # the request passed to HttpRequest::request is the parameter of the send helper, whose caller passes build()'s result
         ex = nd.ctx
-        while ex is not None and not any(t.get("name") == "verify_response" for _, t in ex.bv.calls()):
+        while ex is not None and not (ex.bv.body.get("kind") == "coroutine" and lib.calls_verify_response(ex.bv)):
             ex = ex.parent
         if ex is nd.ctx:
             # no send helper: the exchange function hands the request to the transport itself
